@@ -186,3 +186,19 @@ def check(ctx):
         pv, pcs = ctx.reach_calls([f"{PROD}::produce_and_execute"], ["fuel_core_producer"], max_depth=6)
         hits = [c for c, _ in pcs if any(c.is_path(s) for s in NONDET)]
         ctx.add("3.positive-control", "EFFECT", len(hits) >= 1, f"control: the block-producing path reaches {len(hits)} such sources (relayer DA height)", sites=[c.where() for c in hits[:3]], site_key="control")
+
+    # -- 4. a dry run does not contend for the production lock (its answer must not depend on concurrent requests) --
+    with ctx.clause("4.no-production-lock"):
+        du = F.unit(f"{PROD}::dry_run")
+        lk = []
+        for x in du.bodies:
+            for c in x.calls:
+                if c.bb in x.live and c.name in ("try_lock", "lock", "lock_owned", "try_lock_owned", "blocking_lock", "try_acquire", "acquire", "acquire_owned", "try_acquire_owned"):
+                    at = ctx.resolved_atoms(du, x, c.args[0], 2) if c.args else set()
+                    if atom_match(at, f"field:{PROD}.lock") or atom_match(at, f"field:{PROD}.*lock*") or atom_match(at, f"field:{PROD}.*semaphore*"):
+                        lk.append(c)
+        ctx.expect_sites("4.dry-run-takes-no-production-lock", lk, exactly=0,
+                         what="acquisition of the producer's production lock on the dry-run path (a dry run overlapping another request would fail or wait instead of giving the same answer)")
+        pu = F.unit(f"{PROD}::produce_and_execute")
+        plk = [c for x in pu.bodies for c in x.calls if c.bb in x.live and c.name in ("try_lock", "lock") and atom_match(ctx.resolved_atoms(pu, x, c.args[0], 2) if c.args else set(), f"field:{PROD}.lock")]
+        ctx.add("4.positive-control", "EFFECT", len(plk) >= 1, f"control: block production does take that lock ({len(plk)} site)", sites=[c.where() for c in plk], site_key="ctl")
